@@ -258,7 +258,7 @@ class Cache:
             return "`filter` on a table containing window function expression"
 
         if isinstance(node, verbs.Summarize):
-            if self.group_by and self.group_by != set(self.partition_by):
+            if self.group_by:
                 return "nested summarize"
             if any(
                 (col.ftype(agg_is_window=False) in (Ftype.WINDOW, Ftype.AGGREGATE))
